@@ -173,8 +173,20 @@ def run(ctx):
             if key not in seen_e:
                 seen_e.add(key)
                 ctx.ob(R2, enc.qual, "everything else is written as %XX of the byte", ok, (a_[0][:100] if a_ else ""), witness=r.witness(), node=enc.node)
-    ctx.sites(R2, n_raw, 1, "raw-byte writes on encoder rows")
-    ctx.sites(R2, n_esc, 1, "escaped writes on encoder rows")
+    if n_raw == 0 and n_esc == 0:
+        # the encoder is written in a way the rule does not recognise (DESIGN 13.2): decide provenance only - the result
+        # depends on the component and the allowed set alone, and membership in the allowed set is what is tested
+        tests = any(isinstance(k_, tuple) and len(k_) == 4 and k_[0] == "cmp" and k_[2] == "in" and k_[3] == ALLOWED for r in rows_e for k_ in r.st.ts)
+        foreign = set()
+        for r in rows_e:
+            for x in subterms(r.ret or ""):
+                if destruct(x)[0] is None and x.startswith(("p:", "self.")) and x not in (ALLOWED, f"p:{enc.params()[0]}"):
+                    foreign.add(x)
+        ctx.ob(R2, enc.qual, "encoder idiom not recognised: the result depends only on the component and the allowed set, and membership in the allowed set is tested (provenance only)",
+               tests and not foreign, f"tests membership: {tests}; other inputs: {sorted(foreign)}", node=enc.node)
+    else:
+        ctx.sites(R2, n_raw, 1, "raw-byte writes on encoder rows")
+        ctx.sites(R2, n_esc, 1, "escaped writes on encoder rows")
     et = m.func(f"{URL}._encode_target")
     rows_t = [r for r in effect_rows(ctx, et, GenRule(ctx, et.module), None) if r.returns]
     ctx.sites(R2, len(rows_t), 2, "returning rows of _encode_target")
